@@ -609,11 +609,19 @@ qb_ipcs_connection_unref(struct qb_ipcs_connection *c)
 	}
 }
 
+static void
+_rerun_closed_job_(void *data)
+{
+	struct qb_ipcs_connection *c = (struct qb_ipcs_connection *)data;
+
+	c->closed_state = QB_IPCS_CLOSED_TODO;
+	qb_ipcs_disconnect(c);
+}
+
 void
 qb_ipcs_disconnect(struct qb_ipcs_connection *c)
 {
 	int32_t res = 0;
-	qb_loop_job_dispatch_fn rerun_job;
 
 	if (c == NULL) {
 		return;
@@ -641,25 +649,37 @@ qb_ipcs_disconnect(struct qb_ipcs_connection *c)
 	}
 	if (c->state == QB_IPCS_CONNECTION_SHUTTING_DOWN) {
 		int scheduled_retry = 0;
+
+		if (c->closed_state != QB_IPCS_CLOSED_TODO) {
+			/*
+			 * connection_closed() is running (we are called from
+			 * inside it), is going to be re-run by the queued job,
+			 * or has returned 0 and the initial reference is gone
+			 * (the connection only lives on because somebody else
+			 * holds a reference): there is nothing left to do here.
+			 */
+			return;
+		}
 		res = 0;
 		if (c->service->serv_fns.connection_closed) {
+			c->closed_state = QB_IPCS_CLOSED_RUNNING;
 			res = c->service->serv_fns.connection_closed(c);
 		}
 		if (res != 0) {
 			/* OK, so they want the connection_closed
 			 * function re-run */
-			rerun_job =
-			    (qb_loop_job_dispatch_fn) qb_ipcs_disconnect;
 			res = c->service->poll_fns.job_add(QB_LOOP_LOW,
-							   c, rerun_job);
+							   c, _rerun_closed_job_);
 			if (res == 0) {
 				/* this function is going to be called again.
 				 * so hold off on the unref */
 				scheduled_retry = 1;
+				c->closed_state = QB_IPCS_CLOSED_RETRY;
 			}
 		}
 		remove_tempdir(c->description);
 		if (scheduled_retry == 0) {
+			c->closed_state = QB_IPCS_CLOSED_DONE;
 			/* This removes the initial alloc ref */
 			qb_ipcs_connection_unref(c);
 		}
